@@ -25,10 +25,11 @@ structure Fixes where
   f8 : Bool := true    -- lex.csv end-of-file handling
   f10 : Bool := true   -- rewrite trie reuses only a node's last edge
   f14 : Bool := true   -- connector padding lanes use the invalid id; < 8 / 0 templates handled
+  f12 : Bool := true   -- mecab conversion requires id 0 to be defined
   deriving Repr, DecidableEq, Inhabited
 
-def Fixes.all : Fixes := ⟨true, true, true, true, true, true, true, true, true⟩
-def Fixes.pinned : Fixes := ⟨false, false, false, false, false, false, false, false, false⟩
+def Fixes.all : Fixes := ⟨true, true, true, true, true, true, true, true, true, true⟩
+def Fixes.pinned : Fixes := ⟨false, false, false, false, false, false, false, false, false, false⟩
 
 structure UnkEntryM where
   cateId : Nat
